@@ -328,7 +328,7 @@ PTYPES_INT = ["int", "float", "np.float64", "np.int64", "float", "int"]
 def _deep_case(rng, kind=None):
     """many sweeps (10-14, the default 25, or just past the point where the messages underflow at phi = 1) on a
     small network, queried on grids that contain phi = 1 / 1.0 / nearly 1"""
-    labels = list(range(16)) + [31, 64, 100, 257]
+    labels = list(range(24)) + [31, 32, 33, 64, 65, 100, 129, 257, 1000]   # 33 >= the 26 vertices a deep network can need
     kind = kind or rng.choice(["multi", "multi", "multi", "uni", "tree"])
     if kind == "multi":
         pool = rng.choice([["edge"], ["edge"], ["edge", "edge", "triangle"], ["edge", "path3", "triangle", "cycle4"],
